@@ -338,7 +338,7 @@ class Grid1D(MeshStructure):
         np.ndarray
             containing all cell volumes, arranged according to gridcells
         """
-        V = self.cellsize.x[1:-1]
+        V = self.cellsize.x[1:-1].copy()
         return V 
 
 
